@@ -77,6 +77,41 @@ SymToUni(code, first) ==
       v  == (c0 + 32) - first
   IN IF IsScalar(v) THEN v ELSE NoChar
 
+\* ---- the inverse law -----------------------------------------------------------------------
+\* Font (module Cmap, SymbolCode) reaches a Symbol sub-table from a Unicode character x through
+\*      code = Canon(x) + first - 32,
+\* Canon(x) = x - 0xF000 for the PUA image U+F000..U+F0FF of a byte, else x; first is
+\* OS/2.usFirstCharIndex (32 when there is no OS/2 table).  A Mac Roman sub-table written for such a
+\* font must be keyed by the characters that REACH the retained codes, so the conversion Conv used by
+\* MappingsToKeep::new has to be the inverse of Font's rule, for EVERY usFirstCharIndex (the usual
+\* values 0x20 and 0xF020 are two points of the parameter space, values below 0x20 and above the
+\* codes are others):
+\*   (L1) a code that converts to a character outside the PUA image is reached by that character:
+\*           Conv(code, f) = u, u # NoChar, u \notin PuaImage  =>  SymbolCode(u, f) = code
+\*   (L2) a character that reaches a code converts back to it (up to the PUA image):
+\*           SymbolCode(x, f) = k, k # NoCode                  =>  Conv(k, f) = Canon(x)
+\* MC_CmapSubset checks the law for SymToUni (under FixSymInv, the code as it is now) over all 16-bit
+\* codes and a set of usFirstCharIndex values, and that the named wrong readings below break it.
+PuaImage == 61440 .. 61695
+Canon(x) == IF x \in PuaImage THEN x - 61440 ELSE x
+SymInverseLaw(Conv(_, _), F, Codes, X) ==
+  \A f \in F :
+    /\ \A code \in Codes : LET u == Conv(code, f) IN (u # NoChar /\ u \notin PuaImage) => SymbolCode(u, f) = code
+    /\ \A x \in X : LET k == SymbolCode(x, f) IN k # NoCode => Conv(k, f) = Canon(x)
+
+\* Named wrong readings (each was, or was seeded as, the implementation at some time):
+\*  - the offset usFirstCharIndex - 0x20 clamped at 0 and subtracted in one step (seeded change C08-r2m3):
+\*    the same function for usFirstCharIndex >= 0x20, the identity below it
+SymToUni_SaturatingOffset(code, first) ==
+  LET off == IF first >= 32 THEN first - 32 ELSE 0
+      v   == code - off
+  IN IF v >= 0 /\ IsScalar(v) THEN v ELSE NoChar
+\*  - codes outside F000..F0FF first moved into the PUA (the finding repaired by notes/C08-fix-2.diff)
+SymToUni_PuaFirst(code, first) ==
+  LET c0 == IF code >= 61440 /\ code <= 61695 THEN code ELSE code + 61440
+      v  == (c0 + 32) - first
+  IN IF IsScalar(v) THEN v ELSE NoChar
+
 \* the character under which the code is kept
 OutputChar(code, enc, target, first) ==
   IF enc = "Symbol" /\ target = "MacRoman" /\ SymToUni(code, first) # NoChar
